@@ -277,13 +277,7 @@ func checkC11(e *Engine, r *Report) {
 			if !(len(sa) == 2 && sameLocal(sa[1], ctors[0].(ssa.Value)) && sliceFrom(sa[0]).HasValue(fn.Params[1])) {
 				ok = false
 			}
-			eg := errNilGuards(fn, func(c *ssa.Call) bool { return ssa.CallInstruction(c) == srv[0] })
-			okErr := false
-			for _, g := range eg {
-				if failEdgeReturnsError(fn, g, nil) {
-					okErr = true
-				}
-			}
+			okErr := errorPropagated(fn, srv[0], nil)
 			r.Check(ok && okErr, key, e.Pos(srv[0].Pos()), ms.ctor+"(delegator, validator[, dst], amount) → msgServer."+ms.method+"(ctx, msg), error returned", "the native message does not carry exactly the helper's delegator / validator / amount in their positions, is served on another context, or its error is dropped")
 		}
 	})
@@ -332,13 +326,7 @@ func checkC11(e *Engine, r *Report) {
 					ok, why = false, "a success return does not pass autoEmitEventsFromSdkEvents (native events without matching EVM logs)"
 				}
 			}
-			eg := errNilGuards(fn, func(c *ssa.Call) bool { return ssa.CallInstruction(c) == au })
-			okErr := false
-			for _, g := range eg {
-				if failEdgeReturnsError(fn, g, nil) {
-					okErr = true
-				}
-			}
+			okErr := errorPropagated(fn, au, nil)
 			if !okErr {
 				ok, why = false, "the error of autoEmitEventsFromSdkEvents is not returned"
 			}
